@@ -1247,8 +1247,9 @@ func ruleLineScanStart(rule string) func(*Ctx) {
 		var iAlloc *ssa.Alloc
 		var mainLoop *loopInfo
 		for _, ci := range callsTo(c, f, "(RectClip64).getNextLocation") {
-			for _, a := range ci.Common().Args {
-				if al, ok := a.(*ssa.Alloc); ok && al.Comment == "i" {
+			// the scan index is the local whose address is getNextLocation's `i *int` argument (receiver, path, loc, i, highI)
+			if args := ci.Common().Args; len(args) >= 4 {
+				if al, ok := args[3].(*ssa.Alloc); ok {
 					iAlloc = al
 				}
 			}
